@@ -18,9 +18,13 @@ import (
 	"fmt"
 	"testing"
 
+	"time"
+
 	"github.com/go-kit/log"
 	frrv1beta1 "github.com/metallb/frr-k8s/api/v1beta1"
 	"go.universe.tf/metallb/internal/bgp"
+	metallbconfig "go.universe.tf/metallb/internal/config"
+	metav1 "k8s.io/apimachinery/pkg/apis/meta/v1"
 	frrk8s "go.universe.tf/metallb/internal/bgp/frrk8s"
 	"go.universe.tf/metallb/internal/logging"
 	"k8s.io/apimachinery/pkg/runtime"
@@ -150,5 +154,155 @@ func TestVerifK8sRec(t *testing.T) {
 		perm := vPermute(r, ss)
 		out.Case(20000+id, "frrk8s-reconciled", cPair(cSessList(ss), cSessList(perm)),
 			map[string]any{"sessions": ss, "node": node, "ok": true, "cfg": vKProject(got), "level": string(lvl)})
+
+		// ---- successive desired configurations that differ in ONE field at a time, shrinking to empty and back;
+		// after each: the Spec in the API must be the desired Spec
+		desired := produced.DeepCopy()
+		saved := produced.DeepCopy()
+		nmut := 0
+		apply := func(what string, mut func(c *frrv1beta1.FRRConfiguration)) {
+			if bad {
+				return
+			}
+			next := desired.DeepCopy()
+			mut(next)
+			if vRecSpecJSON(next) == vRecSpecJSON(desired) {
+				return // nothing to change in this configuration
+			}
+			desired = next
+			rec.UpdateConfig(*next.DeepCopy())
+			nmut++
+			for k := 1; k <= 2 && !bad; k++ {
+				if _, err := rec.Reconcile(context.TODO(), req); err != nil {
+					out.Fail("k8s-reconcile-error", fmt.Sprintf("after %s, reconcile %d: %v", what, k, err), map[string]any{"sessions": ss})
+					bad = true
+					return
+				}
+				cur := frrv1beta1.FRRConfiguration{}
+				_ = cl.Get(context.TODO(), key, &cur)
+				if a, b := vRecSpecJSON(&cur), vRecSpecJSON(desired); a != b {
+					out.Fail("k8s-reconciled-differs-from-desired",
+						fmt.Sprintf("after a change of %s only, reconcile %d at log level %s: the FRRConfiguration in the API is not the desired one", what, k, lvl),
+						map[string]any{"sessions": ss, "node": node, "change": what, "in_api": json.RawMessage(a), "desired": json.RawMessage(b)})
+					bad = true
+				}
+			}
+		}
+		nb := func(c *frrv1beta1.FRRConfiguration) *frrv1beta1.Neighbor {
+			for i := range c.Spec.BGP.Routers {
+				if len(c.Spec.BGP.Routers[i].Neighbors) > 0 {
+					return &c.Spec.BGP.Routers[i].Neighbors[0]
+				}
+			}
+			return nil
+		}
+		onNb := func(what string, f func(n *frrv1beta1.Neighbor)) {
+			apply(what, func(c *frrv1beta1.FRRConfiguration) {
+				if n := nb(c); n != nil {
+					f(n)
+				}
+			})
+		}
+		dur := func(sec int) *metav1.Duration { return &metav1.Duration{Duration: time.Duration(sec) * time.Second} }
+		onNb("the password (rotated)", func(n *frrv1beta1.Neighbor) { n.Password, n.PasswordSecret = "rotated-"+n.Password, frrv1beta1.SecretReference{} })
+		onNb("the password (removed)", func(n *frrv1beta1.Neighbor) { n.Password = "" })
+		onNb("the password (added)", func(n *frrv1beta1.Neighbor) { n.Password = "added" })
+		onNb("the password secret reference (set instead of the password)", func(n *frrv1beta1.Neighbor) {
+			n.Password, n.PasswordSecret = "", frrv1beta1.SecretReference{Name: "s1", Namespace: "metallb-system"}
+		})
+		onNb("the password secret reference (other name)", func(n *frrv1beta1.Neighbor) { n.PasswordSecret.Name = "s2" })
+		onNb("the password secret reference (removed)", func(n *frrv1beta1.Neighbor) { n.PasswordSecret = frrv1beta1.SecretReference{} })
+		onNb("the hold time", func(n *frrv1beta1.Neighbor) { n.HoldTime = dur(91) })
+		onNb("the keepalive time", func(n *frrv1beta1.Neighbor) { n.KeepaliveTime = dur(31) })
+		onNb("the connect time", func(n *frrv1beta1.Neighbor) { n.ConnectTime = dur(11) })
+		onNb("the hold time (removed)", func(n *frrv1beta1.Neighbor) { n.HoldTime = nil })
+		onNb("the keepalive time (removed)", func(n *frrv1beta1.Neighbor) { n.KeepaliveTime = nil })
+		onNb("the connect time (removed)", func(n *frrv1beta1.Neighbor) { n.ConnectTime = nil })
+		onNb("ebgpMultiHop (on)", func(n *frrv1beta1.Neighbor) { n.EBGPMultiHop = true })
+		onNb("ebgpMultiHop (off)", func(n *frrv1beta1.Neighbor) { n.EBGPMultiHop = false })
+		onNb("the BFD profile name", func(n *frrv1beta1.Neighbor) { n.BFDProfile = "other" })
+		onNb("the BFD profile name (removed)", func(n *frrv1beta1.Neighbor) { n.BFDProfile = "" })
+		onNb("graceful restart (on)", func(n *frrv1beta1.Neighbor) { n.EnableGracefulRestart = true })
+		onNb("graceful restart (off)", func(n *frrv1beta1.Neighbor) { n.EnableGracefulRestart = false })
+		onNb("disableMP (on)", func(n *frrv1beta1.Neighbor) { n.DisableMP = true })
+		onNb("disableMP (off)", func(n *frrv1beta1.Neighbor) { n.DisableMP = false })
+		onNb("one allowed prefix (added)", func(n *frrv1beta1.Neighbor) {
+			n.ToAdvertise.Allowed.Prefixes = append(append([]string{}, n.ToAdvertise.Allowed.Prefixes...), "198.51.100.0/24")
+		})
+		onNb("a community of a prefix", func(n *frrv1beta1.Neighbor) {
+			n.ToAdvertise.PrefixesWithCommunity = append(append([]frrv1beta1.CommunityPrefixes{}, n.ToAdvertise.PrefixesWithCommunity...),
+				frrv1beta1.CommunityPrefixes{Community: "65000:999", Prefixes: []string{"198.51.100.0/24"}})
+		})
+		onNb("a local preference of a prefix", func(n *frrv1beta1.Neighbor) {
+			n.ToAdvertise.PrefixesWithLocalPref = append(append([]frrv1beta1.LocalPrefPrefixes{}, n.ToAdvertise.PrefixesWithLocalPref...),
+				frrv1beta1.LocalPrefPrefixes{LocalPref: 777, Prefixes: []string{"198.51.100.0/24"}})
+		})
+		onNb("the local preference value", func(n *frrv1beta1.Neighbor) {
+			if k := len(n.ToAdvertise.PrefixesWithLocalPref); k > 0 {
+				n.ToAdvertise.PrefixesWithLocalPref[k-1].LocalPref = 778
+			}
+		})
+		onNb("the communities of the prefixes (all removed)", func(n *frrv1beta1.Neighbor) { n.ToAdvertise.PrefixesWithCommunity = nil })
+		onNb("the local preferences of the prefixes (all removed)", func(n *frrv1beta1.Neighbor) { n.ToAdvertise.PrefixesWithLocalPref = nil })
+		onNb("one allowed prefix (withdrawn)", func(n *frrv1beta1.Neighbor) {
+			if k := len(n.ToAdvertise.Allowed.Prefixes); k > 0 {
+				n.ToAdvertise.Allowed.Prefixes = append([]string{}, n.ToAdvertise.Allowed.Prefixes[:k-1]...)
+			}
+		})
+		onNb("the allowed prefixes (all withdrawn)", func(n *frrv1beta1.Neighbor) { n.ToAdvertise.Allowed.Prefixes = nil })
+		apply("the router prefixes (all withdrawn)", func(c *frrv1beta1.FRRConfiguration) {
+			for i := range c.Spec.BGP.Routers {
+				c.Spec.BGP.Routers[i].Prefixes = nil
+			}
+		})
+		apply("the node selector value", func(c *frrv1beta1.FRRConfiguration) {
+			c.Spec.NodeSelector.MatchLabels = map[string]string{"kubernetes.io/hostname": node + "-other"}
+		})
+		apply("the node selector (removed)", func(c *frrv1beta1.FRRConfiguration) { c.Spec.NodeSelector.MatchLabels = nil })
+		apply("the BFD profiles (one added)", func(c *frrv1beta1.FRRConfiguration) {
+			rx := uint32(123)
+			c.Spec.BGP.BFDProfiles = []frrv1beta1.BFDProfile{{Name: "only", ReceiveInterval: &rx}}
+		})
+		apply("the BFD profile's receive interval", func(c *frrv1beta1.FRRConfiguration) {
+			rx := uint32(321)
+			c.Spec.BGP.BFDProfiles[0].ReceiveInterval = &rx
+		})
+		apply("the BFD profiles (the only one removed)", func(c *frrv1beta1.FRRConfiguration) { c.Spec.BGP.BFDProfiles = nil })
+		apply("the neighbors (the last one of a router closed)", func(c *frrv1beta1.FRRConfiguration) {
+			for i := range c.Spec.BGP.Routers {
+				if k := len(c.Spec.BGP.Routers[i].Neighbors); k > 0 {
+					c.Spec.BGP.Routers[i].Neighbors = c.Spec.BGP.Routers[i].Neighbors[:k-1]
+					return
+				}
+			}
+		})
+		apply("the routers (all peers closed)", func(c *frrv1beta1.FRRConfiguration) { c.Spec.BGP.Routers = nil })
+		apply("the routers (peers opened again)", func(c *frrv1beta1.FRRConfiguration) { c.Spec = *saved.Spec.DeepCopy() })
+		out.Stat("reconciled_single_field_changes", nmut)
+
+		// ---- the same through the real session manager: withdraw everything, close the only peers, BFD profile added and removed
+		mgr := func(what string, f func() error) {
+			if bad {
+				return
+			}
+			if err := f(); err != nil {
+				return
+			}
+			reconcile(what, 2)
+		}
+		for i := range sessions {
+			i := i
+			mgr("after withdrawing every advertisement of a session", func() error { return sessions[i].Set() })
+		}
+		rx := uint32(50)
+		mgr("after adding the only BFD profile", func() error {
+			return sm.SyncBFDProfiles(map[string]*metallbconfig.BFDProfile{"p": {Name: "p", ReceiveInterval: &rx}})
+		})
+		mgr("after removing the only BFD profile", func() error { return sm.SyncBFDProfiles(nil) })
+		for i := range sessions {
+			i := i
+			mgr("after closing a session", func() error { return sessions[i].Close() })
+		}
+		out.Stat("reconciled_shrink_to_empty", 1)
 	}
 }
